@@ -362,6 +362,16 @@ impl Profile
                     p.hot_entities = 3;
                     p.p_no_settle = 150;
                 }
+                if prop == "C12"
+                {
+                    // removals and despawns are "reaction-triggering events" of the statement too: keep despawn / removal
+                    // keys, revoked despawn reactors (tracker without reactors) and in-run despawns common
+                    p.w_top[OPK_DESPAWN_ENT] = 5; p.w_top[OPK_REVOKE] = 6; p.w_top[OPK_REG_FRESH] = 8;
+                    p.w_script[OPK_DESPAWN_ENT] = 6; p.w_script[OPK_REVOKE] = 3; p.w_script[OPK_REMOVE] = 4;
+                    p.w_key = [6, 4, 5, 2, 3, 4, 2, 2, 4, 2, 12];
+                    p.w_fresh_api = [2, 2, 6, 3];
+                    p.hot_entities = 3;
+                }
                 if prop == "C03" { p.w_script[OPK_REMOVE] = 6; p.w_script[OPK_DESPAWN_ENT] = 4; p.w_key = [6, 6, 6, 4, 5, 7, 3, 5, 5, 3, 5]; }
             }
             "C04" =>
